@@ -38,8 +38,7 @@ ASSUMPTIONS = [
   "vertical writing, px lengths only with tts:extent on tt, frame / tick syntax only with ttp:frameRate / ttp:tickRate present",
   "documents containing the trigger of finding R-1 (fixed by 7b226c4) are generated everywhere; their failures are reported under one bucket",
   "not asserted: winner among simultaneously active set elements with different values on one property; white-space collapsing beyond "
-  "the non-white-space characters of each text node; foreign-namespace attributes need not be logged; the default tick rate when "
-  "ttp:tickRate is absent and a frame rate is given",
+  "the non-white-space characters of each text node; foreign-namespace attributes need not be logged",
   "structural choices of a description come from random.Random seeded with one Hypothesis-drawn integer (see gen_ttml.st); style values "
   "are Hypothesis draws",
 ]
@@ -416,8 +415,8 @@ def corruptions(desc):
       out.append(("tt", "fps", "frameRate-zero", ["0"]))
   if tt["frm"] is not None:
     out.append(("tt", "frm", "frameRateMultiplier", ["1000", "1000/1001", "a b", ""]))
-  # TTML2 7.2.10: the default tick rate depends on the frame rate when one is given; only the unconditional default (1) is asserted
-  if tt["tick"] is not None and (tt["fps"] is None or not syns["t"]):
+  # TTML2 ttp:tickRate: without a (valid) tick rate, the effective frame rate if ttp:frameRate is specified, else 1 (gen_ttml.eff_tick)
+  if tt["tick"] is not None:
     out.append(("tt", "tick", "tickRate", ["abc", "", "-1", "x"]))
   if tt["space"] is not None:
     out.append(("tt", "space", "xml-space", ["bogus", "PRESERVE"]))
